@@ -27,16 +27,22 @@ def _run_worker(prop, lines, tmo):
     out = []
     pos = 0
     while pos < len(lines):
-        p = subprocess.run([PY, "-m", "harness.worker", prop, str(tmo)], input="\n".join(lines[pos:]) + "\n",
-                           capture_output=True, text=True, env=env_impl(), cwd=ROOT,
-                           timeout=max(600, tmo * (len(lines) - pos) + 60))
+        timed_out = False
+        try:
+            p = subprocess.run([PY, "-m", "harness.worker", prop, str(tmo)], input="\n".join(lines[pos:]) + "\n",
+                               capture_output=True, text=True, env=env_impl(), cwd=ROOT,
+                               timeout=min(max(120, 2 * tmo * (len(lines) - pos) // 4 + 60), 900))
+        except subprocess.TimeoutExpired as e:      # a case that cannot be interrupted (e.g. inside numpy)
+            timed_out = True
+            class _P: pass
+            p = _P(); p.stdout = (e.stdout.decode() if isinstance(e.stdout, bytes) else (e.stdout or "")); p.stderr = ""; p.returncode = -9
         got = [l for l in p.stdout.split("\n") if l.strip()]
         out.extend(got)
         pos += len(got)
         if pos < len(lines):
             if not got and p.returncode != 0 and "Traceback" in p.stderr and "impl" not in p.stderr:
                 raise RuntimeError("worker cannot start:\n" + p.stderr[-2000:])
-            out.append('"Crashed"')   # the case that killed the interpreter
+            out.append('"Timeout"' if timed_out else '"Crashed"')   # the case that hung / killed the interpreter
             pos += 1
     return out
 
@@ -184,7 +190,7 @@ class Run:
         if not sh: return j
         best = j; t0 = time.time()
         improved = True
-        while improved and budget > 0 and time.time() - t0 < 120:
+        while improved and budget > 0 and time.time() - t0 < 30:
             improved = False
             cands = list(sh(best["case"]))[:40]
             if not cands: break
@@ -312,7 +318,7 @@ def main(argv=None):
     # check-failures first; a correspondence break is reported with a failing input if any check fails too
     new = sorted(seen.items(), key=lambda kv: 0 if kv[0][0] == "check" else 1)
     have_check = any(k[0] == "check" for k, _ in new)
-    for (kind, fid, b), (j, cnt) in new[:6]:
+    for (kind, fid, b), (j, cnt) in new[:4]:
         if kind == "corr" and have_check: continue
         js = run.shrink(j, kind, fid)
         path = write_replay(run, js, kind, note="%d case(s) in bucket %s; classify=%s" % (cnt, b, fid))
